@@ -99,7 +99,7 @@ pub use keys::{ASCII_TO_LOWER, ASCII_TO_UPPER, ENCRYPTION_TABLE};
 /// Returns `(hash_a, hash_b, hash_offset)` after normalizing the filename
 /// (converting `/` to `\` and uppercasing).
 pub fn calculate_mpq_hashes(filename: &str) -> (u32, u32, u32) {
-    let normalized = filename.replace('/', "\\").to_uppercase();
+    let normalized = filename.replace('/', "\\").to_ascii_uppercase();
     let hash_a = hash_string(&normalized, hash_type::NAME_A);
     let hash_b = hash_string(&normalized, hash_type::NAME_B);
     let hash_offset = hash_string(&normalized, hash_type::TABLE_OFFSET);
